@@ -5,6 +5,9 @@ and prints the checks that do not exit 0.  Used for behaviour-preserving refacto
 import os, re, shutil, subprocess, sys, tempfile
 from concurrent.futures import ThreadPoolExecutor
 VERIF = os.path.dirname(os.path.dirname(os.path.abspath(__file__)))
+import json
+_exp = os.path.join(VERIF, "selftest", "refactors", "EXPECTED.json")
+EXPECTED = json.load(open(_exp)) if os.path.exists(_exp) else {}
 
 def one(diff):
     tmp = tempfile.mkdtemp(prefix="pysm-diffchk-")
@@ -20,6 +23,9 @@ def one(diff):
             c = subprocess.run([os.path.join(VERIF, "check"), pid, "--repo", tmp, "--no-evidence"], capture_output=True, text=True, cwd=VERIF)
             if c.returncode == 1:
                 rules = sorted(set(re.findall(r"^\s+(C\d+\.[\w/-]+) at (\S+) (\S+)", c.stdout, re.M)))
+                exp = EXPECTED.get(os.path.basename(diff), {}).get(pid)
+                if exp and {a for a, _, _ in rules} <= set(exp["rules"]):
+                    continue  # a genuine, already-known defect reported at its relocated construct (see EXPECTED.json)
                 out.append(f"{pid} VIOLATION " + "; ".join(f"{a} @{b} {d}" for a, b, d in rules)[:400])
             elif c.returncode == 2:
                 out.append(f"{pid} EXIT2 " + next((l for l in c.stdout.splitlines() if "ANALYSIS-ERROR" in l), "")[:300])
